@@ -553,7 +553,14 @@ func main() {
 				report("keys-exists", fmt.Sprintf("KEYS * returned %d names for %d stored keys", len(keysRep.A), len(dump)), nil)
 			}
 		}
+		objOwner := map[uintptr]string{}
 		for _, v := range dump {
+			if v.Obj != 0 {
+				if other, dup := objOwner[v.Obj]; dup {
+					report("structure", fmt.Sprintf("keys %q and %q share one %s object", other, v.Key, v.Type), nil)
+				}
+				objOwner[v.Obj] = v.Key
+			}
 			switch v.Type {
 			case "list":
 				if !v.ListFwdOK || !v.ListBckOK || len(v.ListFwd) != v.ListLen || len(v.ListBack) != v.ListLen {
